@@ -85,7 +85,7 @@ def make_chooser(rng, length):
         if r < 0.42:
             return ["step"]
         if r < 0.58:
-            return ["put", rng.choice([1, 1, 2, 2, 3]), rng.choice([0, 1])]
+            return ["put", rng.choice([1, 1, 2, 2, 3, 6]), rng.choice([0, 1])]
         if r < 0.63:
             return ["putall", rng.randint(1, 4), rng.choice([0, 1])]
         # a fault; prefer consumers inside wait(), spread over the three phases
@@ -213,10 +213,23 @@ def corpus_cases():
     return out
 
 
+def systematic_cases():
+    """every arrival order of 3 and of 4 distinct priorities (so that the heap array of the waiter queue is
+    unsorted in most of them), all waiters PriorityTasks, on each class/lock combination; then notify_all,
+    an over-long notify(n), and notify(2)"""
+    import itertools
+    for combo in COMBOS:
+        for pris in list(itertools.permutations([1, 2, 3])) + list(itertools.permutations([-1, 0, 1, 2]))[::3]:
+            cons = [{"pri": p, "py": False, "wf": False, "retry": False, "rounds": 1} for p in pris]
+            for op in (["putall", len(pris), 0], ["put", len(pris) + 2, 1], ["put", 2, 0]):
+                yield {"combo": combo, "cons": cons, "env": [["drain"], op, ["drain"]]}
+
+
 def run(ctx):
     rng = ctx.rng
     runs = [(c, execute(c)) for c in corpus_cases()]
     explore(ctx, runs, "corpus: ")
+    explore(ctx, [(c, execute(c)) for c in systematic_cases()], "systematic: ")
     n = 40000 if ctx.thorough() else 3000
     batch = []
     for i in range(n):
